@@ -83,6 +83,18 @@ def judge_tokdec_tree(op, impl, model, spec):
     return "ok" if impl == model else "corr"
 
 
+def ctor_model_op(op):
+    w = op.split(" ")
+    return "tokdec " + (w[2][2 * int(w[1]):] or "-")
+
+
+def judge_ctor(op, impl, model, spec):
+    parts = impl.split(" | ")
+    if not (len(parts) == 3 and parts[0] == parts[1] == parts[2]):
+        return "violation"
+    return "ok" if " ".join(model.split(" ")[:2]) == parts[0] else "corr"
+
+
 def judge_reenc(op, impl, model, spec):
     w = op.split(" ")
     exp = w[2][3:]
@@ -181,12 +193,9 @@ def streams(rng, tier):
             c_ops.append(f"tokdec2 0 {e[:rng.randrange(1, len(e))].hex()}")
         if rng.random() < 0.1:
             c_ops.append(f"tokdec2 {len(e) + rng.choice([0, 1, 2, 50])} {e.hex()}")      # at and beyond the end: nothing, no panic
-    def judge_ctor(op, impl, model, spec):
-        parts = impl.split(" | ")
-        return "ok" if len(parts) == 3 and parts[0] == parts[1] == parts[2] else "violation"
-    a2 = Stream("tokenizer-constructors", "hcore", c_ops, model_ops=["nop"] * len(c_ops), judge=judge_ctor,
+    a2 = Stream("tokenizer-constructors", "hcore", c_ops, model_ops=[ctor_model_op(o) for o in c_ops], judge=judge_ctor,
                 rule="tokdec2: Decoder::tokens() at a position, Tokenizer::new(&bytes[pos..]) and Tokenizer::from(decoder) yield the same tokens and the same end / error "
-                     "(registered tags such as 55799 first in the input included); no model op, the first of the three is what tokenise-wellformed judges",
+                     "(registered tags such as 55799 first in the input included), and the model's tokenizer on that suffix agrees with them",
                 nontrivial=lambda op, impl: " | " in impl)
     a2.shrinkable = False
     yield a2
@@ -236,7 +245,6 @@ def streams(rng, tier):
 def replay_streams(rp):
     op = rp["original_op"]
     if op.startswith("tokdec2"):
-        return [Stream("replay", "hcore", [op], model_ops=["nop"],
-                       judge=lambda o, i, m, s: "ok" if len(i.split(" | ")) == 3 and len(set(i.split(" | "))) == 1 else "violation")]
+        return [Stream("replay", "hcore", [op], model_ops=[ctor_model_op(op)], judge=judge_ctor)]
     j = judge_tokdec_tree if "#T=" in op else judge_reenc if "#P=" in op else judge_bytes if op.startswith("tokdec") else None
     return [Stream("replay", "hcore", [op], judge=j)]
